@@ -134,7 +134,9 @@ def length_variants(rng, L, unit_bits):
                 out.append((ir.DynLen("LEN", True, slope, intercept), {"LEN": ("float", float(x), 5)}))
     # lookup: second entry matches (first match wins: the later entry also matches). L == 0 included: a looked-up
     # length of 0 bits is a legal value, not "no match"
-    lk = ir.Lookup((((ir.Comparison("MODE", "9"),), L + 8), ((ir.Comparison("MODE", "2", ">=", False), ir.Comparison("FLAG", "ON")), L),
+    # the first entry's second comparison refers to a parameter this packet kind does not carry: its first comparison is
+    # false, so the entry simply does not apply
+    lk = ir.Lookup((((ir.Comparison("MODE", "9"), ir.Comparison("NOT_IN_THIS_PACKET", "1")), L + 8), ((ir.Comparison("MODE", "2", ">=", False), ir.Comparison("FLAG", "ON")), L),
                     ((ir.Comparison("MODE", "2", ">=", False),), L + 16)))
     out.append((lk, {"MODE": ("int", 3, 3), "FLAG": ("str", "ON", 1)}))
     if L > 0:
